@@ -115,7 +115,10 @@ fn diag_exact(report: &mut Report, seed: u64, idx: u64) {
             }
             let want_logdet: f64 = parts.inv_stds.iter().map(|x| x.ln()).sum();
             if !((parts.logdet - want_logdet).abs() <= 1e-9 * (1.0 + want_logdet.abs())) {
-                report.violation("C08:diag:logdet_inconsistent", format!("logdet {} vs sum ln inv_std {}", parts.logdet, want_logdet), replay);
+                report.violation("C08:diag:logdet_inconsistent", format!("logdet {} vs sum ln inv_std {}", parts.logdet, want_logdet), replay.clone());
+            }
+            if idx % 997 == 0 && d <= 6 {
+                report.sample(json!({"case": replay, "points": n, "placement": placement, "sigma": sigma, "estimated_std": parts.stds, "mu": mu, "estimated_mean": parts.mean}));
             }
         }
     }
@@ -431,6 +434,9 @@ fn robust_case(report: &mut Report, seed: u64, idx: u64) {
         Some(Ok(out)) => {
             report.count("hostile_windows_adapted", 1);
             let (before, after) = (&out[0], &out[1]);
+            if idx % 499 == 0 {
+                report.sample(json!({"case": replay, "window": tag, "d": d, "n": n, "std_before": before.0, "std_after": after.0, "inv_std_after": after.1, "logdet_after": after.2}));
+            }
             let ok = |v: &f64| v.is_finite() && *v > 0.0;
             for (name, vals) in [("std", &after.0), ("inv_std", &after.1), ("eig_sqrt", &after.3), ("eig_sqrt_inv", &after.4)] {
                 if let Some(i) = vals.iter().position(|v| !ok(v)) {
